@@ -913,6 +913,9 @@ class Evaluator:
 
     def binop(self, op, a, b, ty, n=None):
         if has_sym(a) or has_sym(b):
+            if op in ("==", "!=") and _definitely_ne(self, a, b):
+                # partly symbolic values that differ in a component whatever the symbols are (Some(x) against None)
+                return op == "!="
             return Sym("bin" + op, (a, b))
         if op in ("==", "!="):
             if type(a) is type(b) or (isinstance(a, (int, float)) and isinstance(b, (int, float))):
@@ -1556,10 +1559,55 @@ def _b_partial_cmp(ev, n, a):
     return some(V(p + ("Less" if kx < ky else "Greater" if kx > ky else "Equal"), ()))
 
 
+def _derives_eq(ev, path):
+    """is `==` on this ADT (given by the path of the type or of one of its variants) the derived structural equality?"""
+    if path.startswith(("core::option::Option", "core::result::Result")):
+        return True
+    cache = ev.__dict__.setdefault("_derives_eq_cache", {})
+    if path not in cache:
+        ok = False
+        cands = (path, path.rsplit("::", 1)[0])
+        try:
+            crates = ev.facts.crates.values()
+        except AttributeError:
+            crates = ()
+        for c in crates:
+            for i in c.impls:
+                if i.get("self_ty") in cands and str(i.get("trait") or "").startswith("core::cmp::PartialEq") and i.get("derived"):
+                    ok = True
+        cache[path] = ok
+    return cache[path]
+
+
+def _definitely_ne(ev, x, y, depth=0):
+    """are the two (partly symbolic) values different whatever the symbols stand for?  Structural: different variants of one
+    enum, or one pair of components that is definitely different, under derived equality only."""
+    if depth > 8:
+        return False
+    if isinstance(x, bool) or isinstance(y, bool):
+        return isinstance(x, bool) and isinstance(y, bool) and x != y
+    if isinstance(x, int) and isinstance(y, int):
+        return x != y
+    if isinstance(x, V) and isinstance(y, V):
+        if not _derives_eq(ev, x.path) or not _derives_eq(ev, y.path):
+            return False
+        if x.path != y.path:
+            return x.path.rsplit("::", 1)[0] == y.path.rsplit("::", 1)[0]
+        return len(x.args) == len(y.args) and any(_definitely_ne(ev, a, b, depth + 1) for a, b in zip(x.args, y.args))
+    if isinstance(x, S) and isinstance(y, S) and x.path == y.path and _derives_eq(ev, x.path):
+        fy = dict(y.fields)
+        return any(k in fy and _definitely_ne(ev, v, fy[k], depth + 1) for k, v in x.fields)
+    if isinstance(x, T) and isinstance(y, T) and len(x.items) == len(y.items):
+        return any(_definitely_ne(ev, a, b, depth + 1) for a, b in zip(x.items, y.items))
+    return False
+
+
 def _b_eq(neg):
     def f(ev, n, a):
         x, y = a
         if has_sym(x) or has_sym(y):
+            if _definitely_ne(ev, x, y):
+                return bool(neg)
             return Sym("eq", (x, y))
         if type(x) is not type(y) and not (isinstance(x, (int, float)) and isinstance(y, (int, float))):
             # a newtype compared with its field type (`FiniteF64 == f64`): through the field when the type orders by it;
